@@ -41,6 +41,15 @@ type Profile struct {
 	total    int
 }
 
+func (p *Profile) hasKind(k string) bool {
+	for _, e := range p.Kinds {
+		if e.k == k {
+			return true
+		}
+	}
+	return false
+}
+
 func (p *Profile) init() {
 	if p.total == 0 {
 		for _, e := range p.Kinds {
@@ -58,7 +67,9 @@ type genState struct {
 func genKey(t *rapid.T, p *Profile) []byte {
 	r := rapid.IntRange(0, 99).Draw(t, "keyclass")
 	switch {
-	case r < 72:
+	case r < 55:
+		return KeyPool[rapid.IntRange(0, 7).Draw(t, "hotkey")]
+	case r < 78:
 		return KeyPool[rapid.IntRange(0, len(KeyPool)-1).Draw(t, "poolkey")]
 	case r < 97 || !p.BigKeys:
 		return rapid.SliceOfN(rapid.Byte(), 1, 12).Draw(t, "key")
@@ -219,7 +230,7 @@ func (p *Profile) genOpKind(t *rapid.T, kind string, gs *genState, depth int) Op
 		handle()
 	case OpEvict:
 		coll()
-		o.N = rapid.IntRange(1, 4).Draw(t, "n")
+		o.N = rapid.IntRange(1, 12).Draw(t, "n")
 	case OpReopen:
 		if !p.ReopenNoDrop {
 			o.Flag = rapid.IntRange(0, 1).Draw(t, "drop")
@@ -293,7 +304,11 @@ func GenCase(p *Profile) *rapid.Generator[Case] {
 		c.Cfg.Mem = p.MemPct > 0 && rapid.IntRange(0, 99).Draw(t, "mem") < p.MemPct
 		c.Cfg.RandSeed = int64(rapid.IntRange(1, 1<<30).Draw(t, "randseed"))
 		c.Cfg.CheckEvery = 1
-		if p.EndOnly > 0 && rapid.IntRange(0, 99).Draw(t, "endonly") < p.EndOnly {
+		endOnly := p.EndOnly
+		if endOnly == 0 {
+			endOnly = 55
+		}
+		if rapid.IntRange(0, 99).Draw(t, "endonly") < endOnly {
 			c.Cfg.CheckEvery = rapid.SampledFrom([]int{0, 0, 3, 7}).Draw(t, "checkevery")
 		}
 		if p.Cmps {
@@ -315,6 +330,15 @@ func GenCase(p *Profile) *rapid.Generator[Case] {
 				k = OpSet
 			}
 			c.Ops = append(c.Ops, p.genOpKind(t, k, gs, 0))
+			// Evictions only bite on flushed items: follow a Flush by a burst of
+			// evictions in a good share of cases so that evicted states are common.
+			if k == OpFlush && p.hasKind(OpEvict) && rapid.IntRange(0, 9).Draw(t, "evictafterflush") < 4 {
+				nc := p.NColls
+				if nc <= 0 {
+					nc = 1
+				}
+				c.Ops = append(c.Ops, Op{K: OpEvict, C: rapid.IntRange(0, nc-1).Draw(t, "evictcoll"), N: rapid.IntRange(2, 12).Draw(t, "evictn")})
+			}
 		}
 		return c
 	})
